@@ -8,6 +8,7 @@ import (
 	"os"
 	"os/exec"
 	"path/filepath"
+	"regexp"
 	"sort"
 	"strings"
 	"sync"
@@ -19,18 +20,18 @@ import (
 // ---- plan ----
 
 type HarnessPlan struct {
-	Pkg      string           `json:"pkg"`
-	Fn       string           `json:"fn"`
-	Quick    [][2]int         `json:"quick"`    // [lo,hi] per parameter
-	Thorough [][2]int         `json:"thorough"` // defaults to Quick
-	Steps    int              `json:"steps"`
-	MapOrder int              `json:"mapOrderMax"`
-	Solver   string           `json:"solver"`
-	Sticky   bool             `json:"mapOrderSticky"`
-	Sched    bool             `json:"schedChoice"`
-	SchedMax int              `json:"maxSchedPoints"`
-	Note     string           `json:"note"`
-	Skip     map[string]bool  `json:"-"`
+	Pkg      string          `json:"pkg"`
+	Fn       string          `json:"fn"`
+	Quick    [][2]int        `json:"quick"`    // [lo,hi] per parameter
+	Thorough [][2]int        `json:"thorough"` // defaults to Quick
+	Steps    int             `json:"steps"`
+	MapOrder int             `json:"mapOrderMax"`
+	Solver   string          `json:"solver"`
+	Sticky   bool            `json:"mapOrderSticky"`
+	Sched    bool            `json:"schedChoice"`
+	SchedMax int             `json:"maxSchedPoints"`
+	Note     string          `json:"note"`
+	Skip     map[string]bool `json:"-"`
 }
 
 type PropPlan struct {
@@ -119,6 +120,7 @@ func cmdCheck(args []string) {
 		}
 	}
 
+	theReplayer.race = *prop == "C19"
 	sym.InitPool(*workers, "z3", 30000)
 	defer sym.ClosePool()
 	deadline := time.Time{}
@@ -350,6 +352,7 @@ func writeReplay(vdir, prop string, in *instance, v sym.Event) string {
 // nativeReplay builds the real code with the harness overlay and runs the
 // harness on the model.  It reports whether the violation reproduced.
 type replayer struct {
+	race bool // build with the race detector and repeat (C19)
 	mu   sync.Mutex
 	tmp  string
 	bins map[string]string // pkg -> test binary ("" = build failed)
@@ -387,6 +390,31 @@ func (r *replayer) binary(repo, vdir, pkg string) (string, string) {
 		}
 		return nil
 	})
+	if r.race {
+		// widen native race windows: a random pause before every mutex Lock / channel operation of the
+		// repository (overlay copies only; /repo is not modified)
+		reLock := regexp.MustCompile(`(?m)^(\s*)([A-Za-z_][A-Za-z0-9_.]*)\.Lock\(\)`)
+		for _, sub := range []string{"agent", "collection", "cdcn"} {
+			files, _ := os.ReadDir(filepath.Join(repo, sub))
+			for _, f := range files {
+				if !strings.HasSuffix(f.Name(), ".go") || strings.HasSuffix(f.Name(), "_test.go") {
+					continue
+				}
+				src, err := os.ReadFile(filepath.Join(repo, sub, f.Name()))
+				if err != nil {
+					continue
+				}
+				out := reLock.ReplaceAllString(string(src), "${1}zzvfjit.Jitter(); ${2}.Lock()")
+				if out == string(src) {
+					continue
+				}
+				out = strings.Replace(out, "import (", "import (\n\tzzvfjit \""+modulePath(repo)+"/zzvf\"", 1)
+				tf := filepath.Join(r.tmp, sub+"_"+f.Name())
+				os.WriteFile(tf, []byte(out), 0o644)
+				ov[filepath.Join(repo, sub, f.Name())] = tf
+			}
+		}
+	}
 	pkgName := filepath.Base(pkg)
 	// registry of harness functions in this package
 	var names []string
@@ -433,6 +461,7 @@ func TestVFReplay(t *testing.T) {
 	if f == nil {
 		t.Fatal("VF-NO-HARNESS")
 	}
+	vf.Reset()
 	vf.QuiesceBase = runtime.NumGoroutine()
 	defer func() {
 		if r := recover(); r != nil {
@@ -451,7 +480,12 @@ func TestVFReplay(t *testing.T) {
 	ovf := filepath.Join(r.tmp, pkgName+"_overlay.json")
 	os.WriteFile(ovf, ovb, 0o644)
 	bin := filepath.Join(r.tmp, pkgName+".test")
-	build := exec.Command("timeout", "900", "go", "test", "-c", "-tags", "verif", "-vet=off", "-overlay", ovf, "-o", bin, "./"+pkg)
+	buildArgs := []string{"900", "go", "test", "-c", "-tags", "verif", "-vet=off", "-overlay", ovf, "-o", bin}
+	if r.race {
+		buildArgs = append(buildArgs, "-race")
+	}
+	buildArgs = append(buildArgs, "./"+pkg)
+	build := exec.Command("timeout", buildArgs...)
 	build.Dir = repo
 	build.Env = append(os.Environ(), "GOFLAGS=-mod=mod", "GOPROXY=off", "GOSUMDB=off", "GOTOOLCHAIN=local", "GOCACHE="+goCache())
 	if bout, err := build.CombinedOutput(); err != nil {
@@ -479,13 +513,20 @@ func nativeReplay(repo, vdir, replayPath string) (bool, string) {
 	if len(doc.Params) > 1 {
 		p1 = doc.Params[1]
 	}
-	cmd := exec.Command("timeout", "120", bin, "-test.run", "^TestVFReplay$", "-test.timeout", "20s", "-test.v")
+	runArgs := []string{"120", bin, "-test.run", "^TestVFReplay$", "-test.timeout", "20s", "-test.v"}
+	if theReplayer.race {
+		runArgs = []string{"300", bin, "-test.run", "^TestVFReplay$", "-test.timeout", "200s", "-test.v", "-test.count", "300"}
+	}
+	cmd := exec.Command("timeout", runArgs...)
 	cmd.Dir = repo
 	cmd.Env = append(os.Environ(), "VF_REPLAY="+replayPath, "VF_HARNESS="+doc.Harness, fmt.Sprintf("VF_P0=%d", p0), fmt.Sprintf("VF_P1=%d", p1))
 	outb, _ := cmd.CombinedOutput()
 	out := string(outb)
 	if strings.Contains(out, "VF-ASSUME-FAILED") {
 		return false, "assumption failed natively\n" + tail(out, 10)
+	}
+	if theReplayer.race && strings.HasPrefix(doc.Label, "no-interference") {
+		return strings.Contains(out, "DATA RACE") || strings.Contains(out, "VF-PAR-PANIC") || strings.Contains(out, "concurrent map"), tail(out, 12)
 	}
 	switch doc.Label {
 	case "nonterm":
@@ -617,29 +658,29 @@ func writeEvidence(vdir, prop, tier string, seed int, insts []*instance, pp Prop
 		samples = append(samples, "no instance ran")
 	}
 	cov := map[string]interface{}{
-		"explanation":            pp.Explanation + " Deciding step: every assertion instance on every explored path is an SMT query (path condition AND NOT assertion) answered unsat by z3; paths are enumerated by decision-vector re-execution of the go/ssa form of the real code regenerated from /repo on this run.",
-		"obligations":            oblig,
-		"discharged":             disch + trivial,
-		"discharged_by_solver":   disch,
-		"discharged_concretely":  trivial,
-		"known_finding_hits":     known,
-		"paths":                  paths,
-		"harness_instances":      len(insts),
+		"explanation":                       pp.Explanation + " Deciding step: every assertion instance on every explored path is an SMT query (path condition AND NOT assertion) answered unsat by z3; paths are enumerated by decision-vector re-execution of the go/ssa form of the real code regenerated from /repo on this run.",
+		"obligations":                       oblig,
+		"discharged":                        disch + trivial,
+		"discharged_by_solver":              disch,
+		"discharged_concretely":             trivial,
+		"known_finding_hits":                known,
+		"paths":                             paths,
+		"harness_instances":                 len(insts),
 		"instances_with_solver_obligations": nontrivialInst,
 		"instances_not_reaching_end":        reachMissing,
-		"evaluations":            paths,
-		"distinct_nontrivial":    max(2, nontrivialInst),
-		"rule":                   "one evaluation = one feasible symbolic path of one harness instance; an instance is non-trivial when at least one of its assertions needed a solver query",
-		"samples":                samples,
-		"bounds":                 bounds,
-		"functions_encoded":      fnames,
-		"stubs_and_intrinsics":   snames,
-		"solver_queries":         queries,
-		"solver_time_s":          solverT.Seconds(),
-		"max_ssa_steps_on_a_path": maxSteps,
-		"solver":                 "z3 (incremental, one process per worker)",
-		"notes":                  notes,
-		"exhaustive":             false,
+		"evaluations":                       paths,
+		"distinct_nontrivial":               max(2, nontrivialInst),
+		"rule":                              "one evaluation = one feasible symbolic path of one harness instance; an instance is non-trivial when at least one of its assertions needed a solver query",
+		"samples":                           samples,
+		"bounds":                            bounds,
+		"functions_encoded":                 fnames,
+		"stubs_and_intrinsics":              snames,
+		"solver_queries":                    queries,
+		"solver_time_s":                     solverT.Seconds(),
+		"max_ssa_steps_on_a_path":           maxSteps,
+		"solver":                            "z3 (incremental, one process per worker)",
+		"notes":                             notes,
+		"exhaustive":                        false,
 	}
 	for k, v := range extra {
 		cov[k] = v
